@@ -278,46 +278,55 @@ package object
 
 // conv.for(c, t): c was built by the dispatcher for type t.
 //@ func createTypeConverter
-//@ trusted
+//@ props C09
+//@ requires[C09.lock] ghost("lock.w", bool, goTypeMutex)
 //@ modcomps H_ E_ M G_object_typeConverters G_object_goTypeRegistry
-//@ ensures err == nil ==> result0 != nil && ref(result0) != nil && uf("conv.for", bool, result0, typ)
-//@ ensures err != nil ==> result0 == nil
+//@ assumeframe
+//@ ghostensures err == nil ==> result0 != nil && ref(result0) != nil && uf("conv.for", bool, result0, typ)
+//@ ensures[C08.create.err] err != nil ==> result0 == nil
 
 //@ func newPointerConverter
-//@ props C08
+//@ props C08 C09
 //@ requires indirectType != nil
+//@ requires[C09.lock] ghost("lock.w", bool, goTypeMutex)
 //@ ensures[C08.disp.ptr] err == nil ==> result0 != nil && fresh(result0) && result0.valueConverter != nil && uf("conv.for", bool, result0.valueConverter, indirectType)
 //@ ensures[C08.disp.ptr.err] err != nil ==> result0 == nil
 
 //@ func newSliceConverter
-//@ props C08
+//@ props C08 C09
 //@ requires indirectType != nil
+//@ requires[C09.lock] ghost("lock.w", bool, goTypeMutex)
 //@ ensures[C08.disp.slice] err == nil ==> result0 != nil && fresh(result0) && result0.valueType == indirectType && result0.valueConverter != nil && uf("conv.for", bool, result0.valueConverter, indirectType)
 //@ ensures[C08.disp.slice.err] err != nil ==> result0 == nil
 
 //@ func newArrayConverter
-//@ props C08
+//@ props C08 C09
 //@ requires indirectType != nil
+//@ requires[C09.lock] ghost("lock.w", bool, goTypeMutex)
 //@ ensures[C08.disp.array] err == nil ==> result0 != nil && fresh(result0) && length >= 0 && result0.len == length && result0.valueType == indirectType && result0.valueConverter != nil && uf("conv.for", bool, result0.valueConverter, indirectType)
 //@ ensures[C08.disp.array.err] err != nil ==> result0 == nil
 
 //@ func newMapConverter
-//@ props C08
+//@ props C08 C09
 //@ requires valueType != nil
+//@ requires[C09.lock] ghost("lock.w", bool, goTypeMutex)
 //@ ensures[C08.disp.map] err == nil ==> result0 != nil && fresh(result0) && result0.valueType == valueType && result0.valueConverter != nil && uf("conv.for", bool, result0.valueConverter, valueType)
 //@ ensures[C08.disp.map.err] err != nil ==> result0 == nil
 
 //@ func newStructConverter
-//@ trusted
+//@ props C09
+//@ requires[C09.lock] ghost("lock.w", bool, goTypeMutex)
 //@ modcomps H_ E_ M G_object_typeConverters G_object_goTypeRegistry
-//@ ensures err == nil ==> result0 != nil && fresh(result0)
-//@ ensures err != nil ==> result0 == nil
+//@ assumeframe
+//@ ensures[C08.newstruct.ok] err == nil ==> result0 != nil && fresh(result0)
+//@ ensures[C08.newstruct.err] err != nil ==> result0 == nil
 
 // getTypeConverter: scalar kinds go to the fixed converter of that kind; containers get a converter of the
 // matching type wired to the converter of their element type.
 //@ func getTypeConverter
-//@ props C08
-//@ requires typ != nil
+//@ props C08 C09
+//@ assume[types.nonnil] typ != nil
+//@ requires[C09.lock] ghost("lock.w", bool, goTypeMutex)
 //@ let kind = uf("rt.kind", reflect.Kind, typ)
 //@ let elem = uf("rt.elem", reflect.Type, typ)
 //@ let special = haskey(kindConverters, kind) || haskey(typeConverters, typ)
